@@ -236,6 +236,20 @@ def check_config(cfg, w, rep):
         for k, v in sb.violations.items():
             rep.violation("%s:%s" % (tag, k), "a history written by another implementation of the format would be interpreted differently — " + v.msg,
                           loc=v.loc, config=cfg, rule="%s/%s" % (tag, v.rule or ""), witness=v.witness)
+    if "link_to" in cfg:
+        # with link_to "data lives at content-v2/<algorithm>/<digest>" means: the symlink at that address points at the very file
+        # whose bytes were digested (absolute target taken where it is opened, exact digest input, real existence check)
+        from . import c19
+        sub3 = Report("C19")
+        c19.check_config(cfg, w, sub3)
+        L = ("e-absolute-target", "b-hashes-what-it-reads", "b-input-slice", "b-consumes-all", "d-existing-destination")
+        for (c_, rule, k, desc, ok) in sub3.obligations:
+            if rule in L and ok:
+                rep.ob(cfg, "link/" + rule, k, desc)
+        for k, v in sub3.violations.items():
+            if v.rule in L:
+                rep.violation("link:%s" % k, "the entry at a content address would not be the data of that address — " + v.msg, loc=v.loc, config=cfg,
+                              rule="link/" + v.rule, witness=v.witness)
     # writer/reader agreement (sibling check): the reader validates with the same HASH_ENTRY role the writers use
     rep.count("descriptor_keys[%s]" % cfg, len(ORACLE))
     rep.floor("index_inserts", len(R.index_inserts), 2 if is_async else 1, cfg)
